@@ -52,8 +52,9 @@ def parse_output(name, text, res):
     # restrict to the section of this harness
     m = re.search(r'Checking harness ' + re.escape(name) + r'\.\.\.', text)
     sec = text[m.start():] if m else text
-    for cm in re.finditer(r'Check \d+: (.+)\n\s+- Status: (\w+)\n\s+- Description: "(.*)"\n(?:\s+- Location: (.*)\n)?', sec):
+    for cm in re.finditer(r'Check \d+: ([^\n]+)\n\s+- Status: (\w+)\n\s+- Description: "(.*?)"\n(?:\s+- Location: ([^\n]*)\n)?', sec, re.S):
         cname, status, desc, loc = cm.groups()
+        desc = ' '.join(desc.split())
         if '.cover.' in cname or cname.startswith('cover'):
             res.covers.append((desc, status))
             continue
@@ -190,7 +191,9 @@ def playback(name, slot=0, timeout_s=900, extra_args=()):
     except subprocess.TimeoutExpired:
         return None, 'timeout'
     out = p.stdout
-    m = re.search(r'```\n(.*?)```', out, re.S)
-    if not m:
+    # Kani prints one test per satisfied cover as well as per failed check: keep only those for failed checks
+    blocks = re.findall(r'```\n(.*?)```', out, re.S)
+    keep = [b for b in blocks if not re.search(r'Check for `cover`', b)]
+    if not keep:
         return None, out
-    return m.group(1), out
+    return '\n'.join(keep), out
